@@ -340,9 +340,8 @@ Definition in_domain (c : call) : bool :=
       test_transitive (c_test c) && (negb (c_from_end c) || test_symmetric (c_test c))
   | FMember => is_list (c_seq c) && not_test_not (c_test c)
   | FMemberIf => is_list (c_seq c)
-  | FAssoc | FRassoc =>                                                (* KF nil alist; KF test(key, item) *)
-      is_list (c_seq c) && not_nil (c_seq c) && test_symmetric (c_test c)
-  | FAssocIf | FAssocIfNot | FRassocIf => is_list (c_seq c) && not_nil (c_seq c)
+  | FAssoc | FRassoc => is_list (c_seq c) && test_symmetric (c_test c)    (* KF test(key, item) *)
+  | FAssocIf | FAssocIfNot | FRassocIf => is_list (c_seq c)
   | FSearch =>
       bounds2_ok c && not_test_not (c_test c) &&
       (let w1 := map (key_app (c_key c)) (slice (s_start c) (s_end c l1) l1) in
